@@ -250,3 +250,36 @@ def absorb_cmp(model, rep, rule, kinds):
             (rep.holds if i.status == 'HOLDS' else (rep.violation if i.status == 'VIOLATION' else rep.cannot))(f'{rule}.{sub}', i.construct, i.detail, i.loc)
     rep.require(rule, 6, 'six comparison dunders per kind')
     return n
+
+
+def carry_as_previous(L, ev, ctx):
+    """A running local that hands a value from one iteration to the next (`t = t*eff*ratio; e.x = t`) IS the attribute stored in
+    the previous iteration: when, on the single body path, the carried-out value of a local is exactly the value stored into
+    E[i+k].attr, and its initial value is the atom E[first+k-dir].attr, the carry atom is replaced by E[i+k-dir].attr
+    (induction over the iterations).  Returns {carry atom: Rat} for the carries this holds for."""
+    from sa.algebra import Rat
+    out = {}
+    if L is None or len(L.paths) != 1 or L.kind != 'index':
+        return out
+    p_ = L.paths[0]
+    try:
+        direction = 1 if L.step.const_value() > 0 else -1
+    except Exception:
+        return out
+    for name, init in L.carries.items():
+        if name.startswith('_') and '__' in name:      # a field of the solver, not a local
+            continue
+        cout = p_.carried.get(name)
+        t_out = getattr(cout, 'term', None)
+        t_in = getattr(init, 'term', None)
+        if t_out is None or t_in is None:
+            continue
+        for idx, attr, val, g in ev.stores:
+            tv = getattr(val, 'term', None)
+            if tv is None or idx.c != 1 or not ctx.eq(tv, t_out):
+                continue
+            prev_now = Rat.atom(f'E[{ctx.show(L.index + Rat.const(idx.b - direction))}].{attr}')
+            prev_first = Rat.atom(f'E[{ctx.show(L.start + Rat.const(idx.b - direction))}].{attr}')
+            if ctx.eq(t_in, prev_first):
+                out[f'carry{L.id}:{name}'] = prev_now
+    return out
